@@ -302,10 +302,13 @@ package tree
 //@ func (t *Tree) GetRootByIndex
 //@   props C08 C09 C12
 //@   trusted
+//@   modifies nothing
+//@   ensures result1 == nil ==> result0.Index == index
 //@   sqltext "SELECT * FROM %s WHERE position = $1;"
 //@ func (t *Tree) GetRootByHash
 //@   props C08 C12
 //@   trusted
+//@   modifies nothing
 //@   sqltext "SELECT * FROM %s WHERE hash = $1;"
 
 // the proof served to callers (C08, C09, C12): when every node on the path from the root to the position is stored -
